@@ -26,7 +26,7 @@ CHECKS.update({
             "DESIGN.md §4 C02"),
     "C07": ("model_checking", "E2",
             "explicit-state BFS over publish/last-will histories on a real broker with the real in-memory history store; 32 subscribe probes per state",
-            "Every sequence of publishes (plain/retain/ttl/retain+ttl x store/no-store key x 2 nested channels) and last wills to depth 3 (quick) / 5 (thorough) is replayed on a real broker; in every state the store content (channel, payload, ttl, contract) is compared with the reference and 32 subscriptions (filter x last x load permission x window) check that exactly the last N stored matching messages arrive before the SUBACK and live messages only after it.",
+            "Every sequence of publishes (plain/retain/ttl/retain+ttl x store/no-store key x 2 nested channels) and last wills to depth 3 (quick) / 5 (thorough) is replayed on a real broker; in every state the store content (channel, payload, ttl, contract) is compared with the reference and 32 subscriptions (filter x last x load permission x window) check that exactly the last N stored matching messages arrive before the SUBACK and live messages only after it. Two pubsub services over two stores linked through the real OnSurvey: messages published through different nodes are replayed on either node.",
             "histories run within seconds, ttl values far from expiry; in-memory badger provider (disk provider covered by C06/C15).",
             "DESIGN.md §4 C07"),
     "C08": ("fault_enumeration", "E4",
@@ -49,12 +49,12 @@ CHECKS.update({
 CHECKS.update({
     "C10": ("model_checking", "E1",
             "preemption- and deviation-bounded exhaustive schedule exploration (controlled scheduler, rate-limiter answers as environment choices) of publishers writing real MQTT packets into the real listener.Conn / websocket transport while the periodic flush runs",
-            "Nine scenarios (plain buffered connection with two publishers x two packets and two timer flushes, with one packet pre-queued, and with a large packet of 1.1/4.2/8.3/60 KB behind a queued small one; websocket transport; websocket over the buffered connection; the shared encode-buffer pool with yields inside the encoder) are explored exhaustively up to 2 (quick) / 3 (thorough) deviations; the byte stream that reached the socket is parsed by an independent MQTT decoder and must consist of complete packets, each sent message once, per-publisher order kept, nothing left queued after the timer flush.",
+            "Nine scenarios (plain buffered connection with two publishers x two packets and two timer flushes, with one packet pre-queued, and with a large packet of 1.1/4.2/8.3/60 KB behind a queued small one; websocket transport; websocket over the buffered connection; the shared encode-buffer pool with yields inside the encoder) are explored exhaustively up to 2 (quick) / 3 (thorough) deviations; the byte stream that reached the socket is parsed by an independent MQTT decoder and must consist of complete packets, each sent message once, per-publisher order kept, nothing left queued after the timer flush. The real pubsub.Publish is driven by one publisher (three messages) with 1..100 (thorough: ..1000) recording subscribers one of which holds one write: every subscriber must see the three messages in order.",
             "socket Write calls are atomic; sequentially consistent statement-level interleavings; real sockets/TLS/OS scheduling not modelled.",
             "DESIGN.md §4 C10"),
     "C11": ("exploration", "E3",
             "bounded-exhaustive enumeration of key-generation and link-extension requests through a real broker connection, decrypted results and behavioural grants compared with a reference",
-            "Every (parent kind incl. all 64 extendable masks, crafted expired/foreign/garbage parents) x 142 type strings x 3 ttls x 9 channels request goes through the real emitter/keygen/ handler; the decrypted key is checked clause by clause (no master bit, permissions within request and parent, contract/signature/master copied, expiry) and its grants through the real Authorize are compared in both directions with a string-level reference over 125 probe channels; extendable keys are tried for publish, subscribe, unsubscribe, presence and link auto-subscribe. Requests that omit every non-empty subset of {key, channel, type, ttl} are sent right after a complete successful request (what is not sent is not requested).",
+            "Every (parent kind incl. all 64 extendable masks, crafted expired/foreign/garbage parents) x 142 type strings x 3 ttls x 9 channels request goes through the real emitter/keygen/ handler; the decrypted key is checked clause by clause (no master bit, permissions within request and parent, contract/signature/master copied, expiry) and its grants through the real Authorize are compared in both directions with a string-level reference over 125 probe channels; extendable keys are tried for publish, subscribe, unsubscribe, presence and link auto-subscribe. Requests that omit every non-empty subset of {key, channel, type, ttl} are sent right after a complete successful request (what is not sent is not requested). The first request each parent key was granted is repeated after all other requests with that key: same answer.",
             "one license version (v3); wildcard requests against keys are C03's business.",
             "DESIGN.md §4 C11"),
 })
@@ -62,7 +62,7 @@ CHECKS.update({
 CHECKS.update({
     "C14": ("model_checking", "E2",
             "bounded-exhaustive enumeration of every ban/unban/use/restart/crash-restart/gossip-to-peer operation sequence against real brokers with a real state directory (every history is a state; no merging)",
-            "Every sequence over {ban, unban, use} to depth 6 (quick) / 8 (thorough) and over {ban, unban, use, restart, crash, useB2, sync} to depth 3 / 5 is executed: ban/unban are real emitter/keyban/ requests with the master key, use is a real SUBSCRIBE presenting the key, restart closes and reopens the broker on the same directory, crash abandons it un-closed and opens a second one, sync feeds the exact broadcast payloads to a second broker, syncfull the first broker's complete state in one payload (periodic exchange); every use must agree with the last acknowledged ban request, and a banned key must also be refused when its text is respelled in the standard base64 alphabet.",
+            "Every sequence over {ban, unban, use} to depth 6 (quick) / 8 (thorough) and over {ban, unban, use, restart, crash, useB2, sync} to depth 3 / 5 is executed: ban/unban are real emitter/keyban/ requests with the master key, use is a real SUBSCRIBE presenting the key, restart closes and reopens the broker on the same directory, crash abandons it un-closed and opens a second one, sync feeds the exact broadcast payloads to a second broker, syncfull the first broker's complete state in one payload (periodic exchange); restart7h restarts a stopped broker after the expiry times in its state file were moved 7 h into the past; every use must agree with the last acknowledged ban request, and a banned key must also be refused when its text is respelled in the standard base64 alphabet.",
             "cache/tombstone TTLs (60 s / 6 h) never elapse in a run; kill is modelled by abandoning the process state, power loss out of scope.",
             "DESIGN.md §4 C14"),
 })
@@ -70,7 +70,7 @@ CHECKS.update({
 CHECKS.update({
     "C13": ("model_checking", "E3+E2",
             "bounded-exhaustive enumeration of (local entry, incoming entry) time pairs on two keys for three backends + exhaustive enumeration of enqueue sequences on real mesh gossip senders fed by a real Swarm, each run under a one-thread controlled scheduler (deadlock detection)",
-            "(a) all 65 536 combinations of add/remove times {absent,1,2,3} of local and incoming entries on two keys for Volatile<-Volatile, Durable<-Volatile and State.Merge: the delta must hold exactly the strictly newer components, be empty/nil iff nothing changed, and the local state must be the pointwise maximum. (b) every sequence of <=2 (quick) / <=3 (thorough) Broadcast/Send calls on one or two real gossipSender objects with payloads produced by a real Swarm (Notify operations, an OnGossip delta, the live Gossip() state, the same object on both links): after draining, every link must have sent at least the union of what was queued; panics and deadlocks are violations.",
+            "(a) all 65 536 combinations of add/remove times {absent,1,2,3} of local and incoming entries on two keys for Volatile<-Volatile, Durable<-Volatile and State.Merge: the delta must hold exactly the strictly newer components, be empty/nil iff nothing changed, and the local state must be the pointwise maximum. (b) every sequence of <=2 (quick) / <=3 (thorough) Broadcast/Send calls on one or two real gossipSender objects with payloads produced by a real Swarm (Notify operations, an OnGossip delta, the live Gossip() state, the same object on both links): after draining, every link must have sent at least the union of what was queued; panics and deadlocks are violations. (c) two payloads merged into one durable state at the same time under the controlled scheduler (<= 2/3 preemptions): what each relayed delta claims must be held by the state, nothing new withheld.",
             "senders are real mesh gossipSender objects without their goroutine; picking order as in mesh (gossip bucket first).",
             "DESIGN.md §4 C13"),
 })
@@ -78,12 +78,12 @@ CHECKS.update({
 CHECKS.update({
     "C03": ("exploration", "E3+E1",
             "bounded-exhaustive enumeration of (key target, permission mask, expiry, requested channel, operation) tuples through the real Authorize on real brokers per license version, compared in both directions with a string-level reference + preemption-bounded exhaustive schedule exploration of two concurrent requests",
-            "169 targets x 681 requests x 6 operations with mask 0xFE on all three licenses plus all 256 masks x 3 expiries on representative pairs (quick), the full product with all masks (thorough); foreign-contract/signature/master keys crafted with the real cipher, undecryptable strings, banned keys and banned keys presented in another spelling (standard base64 alphabet); every disagreement is shrunk to a minimal shape-based signature. Two simultaneous requests (channel parsing, key decryption, target validation) are explored under the controlled scheduler with <= 1 / 2 preemptions: each must be judged as when it is alone.",
+            "169 targets x 681 requests x 6 operations with mask 0xFE on all three licenses plus all 256 masks x 3 expiries on representative pairs (quick), the full product with all masks (thorough); foreign-contract/signature/master keys crafted with the real cipher, undecryptable strings, banned keys and banned keys presented in another spelling (standard base64 alphabet); every disagreement is shrunk to a minimal shape-based signature. Two simultaneous requests (channel parsing, key decryption, target validation) are explored under the controlled scheduler with <= 1 / 2 preemptions: each must be judged as when it is alone. A key's verdict table is compared before and after the key has been used for link extensions through the real keygen (a key is not altered by use); foreign-key kinds are also run on a license whose contract signature is 0.",
             "grammar: 3 literals, '+', '#', depth <= 3 targets / <= 4 requests; single-contract provider.",
             "DESIGN.md §4 C03"),
     "C12": ("exploration", "E3",
             "bounded-exhaustive enumeration of key mutants (every single-character substitution, every XOR mask on every decoded byte, every pair of bit flips, every 8-byte block swap within and between keys) with grants measured through the real Authorize",
-            "For 40 issued keys per license version (5 masks x 4 targets x 2 expiries) every mutant of the listed edit families is presented to the real broker; grants(mutant) over 27-43 probe channels x 6 operations (+ use as master key) must be a subset of grants(original) (union of donors for cross-key swaps). Donors for cross-key swaps: crafted keys with an equal salt, crafted keys with another salt, and keys minted by the real keygen (the broker's own salts).",
+            "For 40 issued keys per license version (5 masks x 4 targets x 2 expiries) every mutant of the listed edit families is presented to the real broker; grants(mutant) over 27-43 probe channels x 6 operations (+ use as master key) must be a subset of grants(original) (union of donors for cross-key swaps). Donors for cross-key swaps: crafted keys with an equal salt, crafted keys with another salt, and keys minted by the real keygen (the broker's own salts). Licenses: versions 1-3 plus a version-1 license whose contract signature is 0.",
             "edits combining three or more changes are outside the bound; cryptographic strength itself is not a model-checking question. The structural malleability of the 32-character key format is recorded as a known finding.",
             "DESIGN.md §4 C12"),
     "C20": ("exploration", "E3+E1",
@@ -104,20 +104,20 @@ CHECKS.update({
 CHECKS.update({
     "C04": ("model_checking", "E2+E1",
             "explicit-state BFS over add/del/merge histories on 3 replicas of the real CRDT (volatile, durable, event.State), ghost-set oracle on every reached state, process-level workers + preemption-bounded exhaustive schedule exploration of concurrent merges into one replica",
-            "Every history of add/del with logical clocks {1,2,3} (ties and out-of-order included) and merges (clone, encode/decode, forwarded delta) among three replicas up to the stated depth is replayed on the real Volatile/Durable/State implementations; in every state every replica's (add, remove) times read through Get/Has/Range/Count (and the State accessors) must equal the pointwise maximum over the set of primitive updates it has transitively received, and Has must equal 'added and latest add not older than latest remove'. Two merges and a local update arriving at one volatile replica at the same time are explored under the controlled scheduler (<= 2 / 3 preemptions): the replica must end at the pointwise maximum.",
+            "Every history of add/del with logical clocks {1,2,3} (ties and out-of-order included) and merges (clone, encode/decode, forwarded delta) among three replicas up to the stated depth is replayed on the real Volatile/Durable/State implementations; in every state every replica's (add, remove) times read through Get/Has/Range/Count (and the State accessors) must equal the pointwise maximum over the set of primitive updates it has transitively received, and Has must equal 'added and latest add not older than latest remove'. Two merges and a local update arriving at one volatile replica at the same time are explored under the controlled scheduler (<= 2 / 3 preemptions): the replica must end at the pointwise maximum; the same on a durable replica (yields between the statements of its methods, buntdb transactions atomic), with the entry unknown, known, or served from the read cache.",
             "states are merged on per-key maxima of the ghost sets + replica symmetry (cross-checked against the unreduced key); values after the 16-byte header are not compared.",
             "DESIGN.md §4 C04"),
     "C05": ("model_checking", "E2",
             "explicit-state BFS over client activity x gossip transport schedules on 2-3 real brokers wired through real mesh gossipSender objects (one per directed link), states deduplicated by a canonical dump of every broker's replicated state, peer counters, routing entries and queued payloads; quiescence closure + routing oracle in every state",
-            "Events: subscribe/unsubscribe/disconnect of a client on any broker (budget 3-4), delivery of one queued payload on one link (gossip bucket first, explorer chooses the broadcast source), periodic full-state gossip, link down/up, peer garbage collection. In every reached state all links are brought up and full-state rounds are run until nothing changes; then every broker must hold a routing entry for a peer iff that peer has a live local subscriber, and a publish on every broker must reach every subscriber exactly once. Configurations: quick = 2 brokers on one channel + 2 brokers with two xor-colliding channels on one side (4 client operations); thorough adds 4 client operations, faults, 3 brokers (mesh and line) and two clients per broker.",
-            "deliveries atomic per broker; mesh routing transcribed for <= 3 brokers; one logical clock; peer liveness timeouts never elapse.",
+            "Events: subscribe/unsubscribe/disconnect of a client on any broker (budget 3-4), delivery of one queued payload on one link (gossip bucket first, explorer chooses the broadcast source), periodic full-state gossip, link down/up, peer garbage collection. In every reached state all links are brought up and full-state rounds are run until nothing changes; then every broker must hold a routing entry for a peer iff that peer has a live local subscriber, and a publish on every broker must reach every subscriber exactly once. Configurations: quick = 2 brokers on one channel + 2 brokers with two xor-colliding channels on one side (4 client operations); thorough adds 4 client operations, faults, 3 brokers (mesh and line) and two clients per broker. A scheduled part delivers a new peer's first two subscriptions on two connections at once (yields in the member list, <= 2/3 preemptions), then lets the two clients leave one by one.",
+            "deliveries atomic per broker in the searches; mesh routing transcribed for <= 3 brokers; one logical clock; peer liveness timeouts never elapse.",
             "DESIGN.md §4 C05"),
 })
 
 CHECKS.update({
     "C06": ("exploration", "E3",
             "bounded-exhaustive enumeration of store histories x queries against the real in-memory and disk history providers, compared with a list-filter reference",
-            "Every history of <= 3 (quick) / <= 4 (thorough) stored messages over templates with colliding 32-bit key prefixes, several messages per second, expired and live ttls, small and 30 KiB payloads is stored in fresh real InMemory and SSD providers; every derived query (exact/shorter/longer/wildcard filters, other contract, 5 windows, limits 0..10^6, continuation from every returned id) is compared with the reference (same contract, level-wise prefix, window, not expired, newest first within the size cap, order, no id on two pages).",
+            "Every history of <= 3 (quick) / <= 4 (thorough) stored messages over templates with colliding 32-bit key prefixes, several messages per second, expired and live ttls, small and 30 KiB payloads is stored in fresh real InMemory and SSD providers; every derived query (exact/shorter/longer/wildcard filters, other contract, 5 windows, limits 0..10^6, continuation from every returned id) is compared with the reference (same contract, level-wise prefix, window, not expired, newest first within the size cap, order, no id on two pages). Two stores linked through the real OnSurvey hold every distribution of four messages and are queried with every limit (the most recent of all nodes must come back); retained messages must be gone once a 2 s retention period has passed.",
             "behaviour at an expiry instant is not explored; the 10^6 limit is sampled sparsely (it preallocates 80 MB per query).",
             "DESIGN.md §4 C06"),
     "C15": ("fault_enumeration", "E4",
